@@ -44,6 +44,8 @@ def gen_config(rnd, S, opts=None):
         base_extra_round = rnd.random() < 0.7
     else:
         base_extra_round = False
+    if opts.get("sell_on_payable"):
+        S["_sell_on_payable"] = True
     if opts.get("fut_plan"):
         S["_fut_plan"] = opts["fut_plan"]
     if opts.get("otp"):
@@ -452,6 +454,17 @@ def run_trading(rnd, S, cfgk, intensity=1.0, script=None, analyser=False, ids=No
             return out
         plan["bars"] += 1
         day = plan["bars"]
+        if S.get("_sell_on_payable") and "STOCK" in context.portfolio.accounts and reseed_key is None:
+            # on the payable day of a dividend of a held stock: sell the WHOLE holding — with reinvestment on, the shares bought this morning are today's purchase (T+1)
+            d8_ = B.d8(env.trading_dt.date())
+            for oid_ in stocks:
+                if any(r_[3] == d8_ for r_ in S["div"].get(oid_, [])):
+                    held_ = context.portfolio.accounts["STOCK"].get_position(oid_, POSITION_DIRECTION.LONG).quantity
+                    if held_ > 0:
+                        def fsp(call, before, oid_=oid_, held_=held_):
+                            call.update(api="order_shares", args=(oid_, -held_, None))
+                            return api.order_shares(oid_, -held_)
+                        out.append(fsp)
         if reseed_key is not None:
             plan["fut"], plan["cash_edge_day"] = (), 0      # a resumable (stateless) strategy has no multi-day plan
         if plan["fut"] is None:
@@ -490,8 +503,16 @@ def run_trading(rnd, S, cfgk, intensity=1.0, script=None, analyser=False, ids=No
                     # into CLOSE 2 (refused: nothing closable is left of the old part) + CLOSE_TODAY 1 (must still be submitted)
                     call.update(api="plan_future_split_close", args=(oid, side))
                     price = env.get_last_price(oid)
-                    r0 = open_fn(oid, 1)
                     far = float(round(price * (1.03 if side == "long" else 0.97)))
+                    if plan.setdefault("split_variant", srnd.random() < 0.5):
+                        # variant: 3 lots opened now; a resting close of 2; then a RESTING close of 5: CLOSE 2 is accepted (3 lots are still closable) and must count
+                        # before CLOSE_TODAY 3 is judged (only 1 lot is left): the second part is refused
+                        call["args"] = (oid, side, "both_rest")
+                        r0 = open_fn(oid, 3)
+                        r1 = close_fn(oid, 2, price_or_style=LimitOrder(far))
+                        r2 = close_fn(oid, 5, price_or_style=LimitOrder(far))
+                        return [r0, r1, r2]
+                    r0 = open_fn(oid, 1)
                     r1 = close_fn(oid, 2, price_or_style=LimitOrder(far))
                     r2 = close_fn(oid, 3)
                     return [r0, r1, r2]
